@@ -1,96 +1,631 @@
-"""C05: clock-domain crossings (two clocks, all edge interleavings, metastability injection), G-mode."""
-import json
+"""C05: clock-domain crossings (two clocks, all edge interleavings, metastability injection).
 
-from ..gcheck import GFamily
+G-mode (specs/cdc/CdcGraph.tla, contract CdcContract.tla): stream.AsyncFIFO, ClockDomainCrossing (also
+with_common_rst: the two reset inputs are environment inputs), BusSynchronizer, PulseSynchronizer; composition
+AXILiteClockDomainCrossing (specs/cdc/AxilCdcGraph.tla, contract AxilCdcContract.tla, thorough tier).
+A G-mode counterexample is replayed linearly on the reference evaluator (same edge schedule, same inputs, the
+metastable resolutions TLC chose) and re-judged by the trace module in T-mode before it is reported.
+T-mode (specs/cdc/CdcTrace.tla): ordinary two-clock simulations (litex.gen.sim.core.Simulator, fixed periods and
+phases, no injection) at realistic widths, one event per instant of the simulator's TimeManager with a rising edge."""
+import json
+import os
+
 from ..graphloop import GraphLoop
-from ..report import MachineryError
+from ..report import MachineryError, ROOT
 from ..families import cdc as fam
 from .. import tlc as tlcmod
+from .. import tracecheck
 
-INVS = ["InOrderExactlyOnce", "ValidHold", "NeverOverflows", "OnlyRealWords"]
+INVS = ["InOrderExactlyOnce", "ValidHold", "NeverOverflows", "OnlyRealWords", "EmptyAfterReset", "NoSpuriousPulse",
+        "EveryPulseOnce"]
 PROPS = ["Progress", "Fresh"]
+NOTES_FINDINGS = os.path.join(ROOT, "notes", "C05b_findings.json")
+FACTORY = "harness.families.cdc:make"
+
+
+def _known(report):
+    """findings of this property: known_findings.json (loaded by Report) plus, until the main agent has merged
+    them, the entries of notes/C05b_findings.json (same format; de-duplicated by id)"""
+    have = {f.get("id") for f in report.findings}
+    try:
+        with open(NOTES_FINDINGS) as f:
+            for e in json.load(f):
+                if e.get("property") == report.prop and e.get("id") not in have:
+                    report.findings.append(e)
+    except FileNotFoundError:
+        pass
 
 
 def _describe(s):
     if s["kind"] == "bus":
         return "BusSynchronizer(width=%d, timeout=%d) at clock drift <= %d" % (s["width"], s["timeout"], s["r"])
-    return "stream.%s(depth=%d%s)" % ("AsyncFIFO" if s["kind"] == "asyncfifo" else "ClockDomainCrossing", s.get("depth", 4),
-                                      ", buffered" if s.get("buffered") else "")
+    if s["kind"] == "pulse":
+        return "PulseSynchronizer, >= %d quiet input cycles after a pulse, clock drift <= %d" % (s["quiet"], s["r"])
+    if s["kind"] == "axil":
+        return fam.describe_axil(s)
+    txt = "stream.%s(depth=%d%s%s)" % ("AsyncFIFO" if s["kind"] == "asyncfifo" else "ClockDomainCrossing", s.get("depth", 4),
+                                       ", buffered" if s.get("buffered") else "",
+                                       ", with_common_rst" if s.get("common_rst") else "")
+    if s.get("swapnames"):
+        txt = txt[:-1] + ', cd_from="read", cd_to="write")'
+    if s.get("common_rst"):
+        txt += " with reset pulses of %s held for >= %d edge(s) of each clock" % (
+            {1: "the source domain", 2: "the destination domain", 3: "either domain"}[s.get("rst", 3)], s["rh"])
+    if s.get("r"):
+        txt += " at clock drift <= %d" % s["r"]
+    return txt
+
+
+def _replay_linear(spec, ivs, want_states=None, picks=None):
+    """run an input/edge schedule linearly from reset on the real netlist with the reference evaluator.  At an
+    instant with several metastable resolutions the successor is the recorded one (want_states: successor state
+    tuples from the graph; picks: index into the offered successors).  -> (events, picks) or None."""
+    from ..fhdl_step import Stepper
+    made = fam.make(spec)
+    opts = made[3]
+    st = Stepper(made[0], made[1], made[2], clocks=tuple(opts["clocks"]), engine="ref", record_multireg=True)
+    state = st.reset_state
+    ev, chosen = [], []
+    for k, iv in enumerate(ivs):
+        o, ds = st.step_meta(state, opts["strip_input"](tuple(iv)), opts["cds_from_input"](tuple(iv)))
+        if want_states is not None:
+            if want_states[k] not in ds:
+                return None
+            state = want_states[k]
+            chosen.append(ds.index(state))
+        else:
+            if picks[k] >= len(ds):
+                return None
+            state = ds[picks[k]]
+            chosen.append(picks[k])
+        ev.append([list(iv), list(o)])
+    return ev, chosen
 
 
 def _confirm(gl, res, spec):
     """replay the counterexample linearly on the real netlist with the reference evaluator: same
     edge schedule, same inputs, and at every simultaneous edge the metastable resolution TLC chose
-    (the successor state recorded in the trace must be among the ones the real netlist offers)."""
-    from ..fhdl_step import Stepper
-    made = fam.make(spec)
-    st = Stepper(made[0], made[1], made[2], clocks=("write", "read"), engine="ref", record_multireg=True)
+    (the successor state recorded in the trace must be among the ones the real netlist offers).
+    A lasso (temporal clause) is replayed as prefix + 3 unrollings of its loop; -> (events, picks, bound) where
+    bound = number of edges of the scarcer clock in the unrolled part (None for a safety clause)."""
     g = gl.duts[res.trace[0]["vars"]["d"] - 1]
-    state = st.reset_state
-    ev = []
-    steps = res.trace[:-1] if res.violated != "temporal" else res.trace
+    lasso = res.violated == "temporal"
+    steps = res.trace if lasso else res.trace[:-1]
+    ivs, want = [], []
     for stt in steps:
         iv = stt["vars"].get("iv")
         ns = stt["vars"].get("ns")
         if not isinstance(iv, (tuple, list)) or not isinstance(ns, int) or ns < 0:
+            if lasso:
+                raise MachineryError("lasso trace without inputs / successor states")
             break
-        o, ds = st.step_meta(state, tuple(iv[1:]), fam._cds(iv))
-        want = g.states[ns]
-        if want not in ds:
-            return None
-        ev.append([list(iv), list(o)])
-        state = want
-    return ev
+        ivs.append(tuple(iv))
+        want.append(g.states[ns])
+    bound = None
+    if lasso:
+        if res.back_to is None:
+            raise MachineryError("temporal counterexample without a loop")
+        k = res.back_to - 1
+        loop_iv, loop_want = ivs[k:], want[k:]
+        ivs, want = ivs + loop_iv * 2, want + loop_want * 2
+        unrolled = loop_iv * 3
+        bound = min(sum(1 for iv in unrolled if iv[0] in (1, 3)), sum(1 for iv in unrolled if iv[0] in (2, 3)))
+        bound = max(1, min(bound, len(unrolled) - len(loop_iv)))
+    rep = _replay_linear(spec, ivs, want_states=want)
+    if rep is None:
+        return None
+    return rep[0], rep[1], bound
 
 
-def run(prop, report, tier, seed):
-    report.assume("metastability = per-bit old/new resolution of a synchroniser's first flop when its source changes "
-                  "at a coinciding destination edge; FIFO crossings: free edge interleaving; bus synchroniser: drift "
-                  "bounded by R and time-out longer than the round trip (premise of the property)")
-    cfgs = fam.configs(tier)
-    total_states = 0
-    for spec, cfg in cfgs:
-        gl = GraphLoop("cdc/CdcGraph", "harness.families.cdc:make", [(spec, cfg)], invariants=INVS, properties=PROPS,
-                       hint=fam.Hint(), spec_name="Spec", fmt="hash", spec_budget=3000000, total_budget=4000000,
-                       tlc_timeout=3000)
+def _tcfg(cfg, stallbound=10**6, freshbound=10**6):
+    c = dict(cfg)
+    c["stallbound"] = stallbound
+    c["freshbound"] = freshbound
+    return c
+
+
+TEMPORAL_T = {"Progress": ["BoundedDelivery", "BoundedAcceptance"], "Fresh": ["BoundedFresh"]}
+
+
+def _judge_linear(trace_module, cfg, ev, clause, bound=None, temporal_t=TEMPORAL_T):
+    """T-mode re-judgement of a linear replay: the same clause (for a lasso: its bounded form over the unrolled
+    loop) must fail on the recorded run of the real code.  -> names of the trace clauses that failed"""
+    hit = []
+    if bound is None:
+        tinv, tcfg = [clause + "T"], _tcfg(cfg)
+    else:
+        tinv, tcfg = temporal_t.get(clause, []), _tcfg(cfg, stallbound=bound, freshbound=bound)
+    for t in tinv:      # TLC names only the first violated invariant of a state: one clause per run
+        fails, _ = tracecheck.validate(trace_module, [{"cfg": tcfg, "ev": ev}], [t], workers=2, heap="2g")
+        hit += [f["clause"] for f in fails if f["clause"] == t]
+    return hit
+
+
+AXIL_INVS = ["RequestsExactlyOnceInOrder", "ResponsesExactlyOnceInOrder", "ValidHold", "AtMostOneOutstanding"]
+AXIL_PROPS = ["Progress"]
+AXIL_TEMPORAL_T = {"Progress": ["BoundedProgress"]}
+
+
+def _family(spec):
+    """(graph module, trace module, invariants, temporal clauses, hint, bounded trace forms of the temporal clauses)"""
+    if spec["kind"] == "axil":
+        return "cdc/AxilCdcGraph", "cdc/AxilCdcTrace", AXIL_INVS, AXIL_PROPS, fam.AxilHint(), AXIL_TEMPORAL_T
+    return "cdc/CdcGraph", "cdc/CdcTrace", INVS, PROPS, fam.Hint(), TEMPORAL_T
+
+
+def run_gmode(report, spec, cfg, seed, opts=None, log=print):
+    """one DUT through the closed loop; a violated clause is confirmed (linear replay on the reference evaluator,
+    re-judged by the trace module) and reported; if it is a listed finding the DUT is explored again without that
+    clause (not for `demo` configurations).  Returns (DUT graph of the last run, last TLC result)."""
+    opts = opts or {}
+    module, trace_module, invs, props, hint, temporal_t = _family(spec)
+    invs = list(invs) + (["LegalAgrees"] if opts.get("agree") else [])
+    props = list(opts["props"]) if "props" in opts else list(props)
+    while True:
+        gl = GraphLoop(module, FACTORY, [(spec, cfg)], invariants=invs, properties=props,
+                       hint=hint, spec_name="Spec", fmt="hash", spec_budget=opts.get("spec_budget", 1000000),
+                       total_budget=4000000, tlc_timeout=3000, log=log, workers=opts.get("workers", 4),
+                       heap=opts.get("heap", "6g"))
         try:
             res = gl.run()
             stc = gl.stats()
+            again = False
+            if res.violated == "LegalAgrees":
+                raise MachineryError("CdcContract: Inputs and Legal disagree (specification error), state %r"
+                                     % (res.trace[-1]["vars"] if res.trace else None,))
             if res.violated:
-                ev = _confirm(gl, res, spec)
-                if ev is None:
-                    raise MachineryError("counterexample on %s does not reproduce on the reference evaluator" % _describe(spec))
                 clause = res.temporal_name if res.violated == "temporal" else res.violated
-                report.violation({"dut": spec, "clause": clause},
-                                 {"family": "cdc/CdcGraph", "spec": spec, "cfg": cfg, "observed": ev[-400:], "clause": clause},
-                                 "%s violated by %s after %d instants" % (clause, _describe(spec), len(ev)))
+                rep = _confirm(gl, res, spec)
+                if rep is None:
+                    raise MachineryError("counterexample on %s does not reproduce on the reference evaluator" % _describe(spec))
+                ev, picks, bound = rep
+                tclauses = _judge_linear(trace_module, cfg, ev, clause, bound, temporal_t)
+                if not tclauses:
+                    raise MachineryError("counterexample to %s on %s is not rejected by the trace module in linear replay"
+                                         % (clause, _describe(spec)))
+                new = report.violation({"dut": spec, "clause": clause},
+                                       {"mode": "G", "family": module, "trace_module": trace_module, "spec": spec, "cfg": cfg,
+                                        "schedule": [e[0] for e in ev] if len(ev) <= 2000 else None,
+                                        "picks": picks if len(ev) <= 2000 else None,
+                                        "observed": ev[-400:], "clause": clause, "trace_clauses": tclauses,
+                                        "bound": bound},
+                                       "%s violated by %s after %d instants" % (clause, _describe(spec), len(ev)))
+                if not new and not opts.get("demo"):
+                    # a listed finding: the other clauses of this DUT are still explored
+                    if res.violated == "temporal":
+                        props = [p for p in props if p != clause]
+                    else:
+                        invs = [i for i in invs if i != clause]
+                    again = True
             else:
                 n = gl.crosscheck(per_dut=40, seed=seed)
                 report.add(reference_evaluator_crosschecks=n)
+                if opts.get("demo"):
+                    report.note("%s: the recorded finding does not show any more" % _describe(spec))
         finally:
             gl.close()
         report.add(states=res.distinct, transitions=res.generated, impl_states=stc["impl_states"],
                    impl_edges=stc["impl_edges"], graph_rounds=stc["rounds"])
-        g = gl.duts[0]
-        multi = sum(1 for e in g.succ for (o, d) in e.values() if isinstance(d, list) and len(d) > 1)
-        report.add(edges_with_several_metastable_resolutions=multi,
-                   per_dut=[{"dut": _describe(spec), "impl_states": len(g.states), "impl_edges": g.nedges,
-                             "edges_with_several_resolutions": multi}])
-        if g.succ and g.succ[0]:
-            k = sorted(g.succ[0])[0]
-            report.sample({"dut": _describe(spec), "edge_from_reset": {"inputs": k, "outputs": list(g.succ[0][k][0])}})
+        if not again:
+            return gl.duts[0], res
+
+
+def run_canary(report, spec, cfg, clause, log=print):
+    """premise of the property broken: the clause MUST fail, or the check has lost its sensitivity"""
+    gl = GraphLoop("cdc/CdcGraph", FACTORY, [(spec, cfg)], invariants=[clause],
+                   hint=fam.Hint(), spec_name="Spec", fmt="hash", spec_budget=3000000, total_budget=4000000, log=log,
+                   workers=4, heap="4g")
+    try:
+        res = gl.run()
+    finally:
+        gl.close()
+    if res.violated != clause:
+        raise MachineryError("canary %s did not violate %s: the check has lost its sensitivity" % (_describe(spec), clause))
+    report.add(canaries_detected=1)
+    report.note("canary %s violates %s after %d instants, as it must" % (_describe(spec), clause, len(res.trace) - 1))
+
+
+def _witnesses(spec, g):
+    """vacuity: the explored graph of a DUT that passed really contains what its clauses talk about"""
+    ivs = list(g.alphabet.values())
+    outs = [o for e in g.succ for (o, d) in e.values()]
+    w = {}
+    if spec["kind"] == "axil":
+        n = 2 if spec["dir"] == "w" else 1
+        w["response delivered to the master"] = sum(1 for o in outs if o[n] == 1)
+        w["request delivered to the slave"] = sum(1 for o in outs if o[n + 2] == 1)
+        w["simultaneous edges"] = sum(1 for iv in ivs if iv[0] == 3)
+    elif spec["kind"] == "pulse":
+        w["output pulses"] = sum(1 for o in outs if o[2] == 1)
+        w["input pulses"] = sum(1 for iv in ivs if iv[1] == 1)
+    elif spec["kind"] == "bus":
+        w["output words other than the power-up value"] = sum(1 for o in outs if o[2] != 0)
+    else:
+        w["edges with a token at the output"] = sum(1 for o in outs if o[1] == 1)
+        w["edges with the input side full"] = sum(1 for o in outs if o[0] == 0)
+        if spec.get("common_rst"):
+            if spec.get("rst", 3) in (1, 3):
+                w["input vectors with the source-domain reset"] = sum(1 for iv in ivs if iv[4] == 1)
+            if spec.get("rst", 3) in (2, 3):
+                w["input vectors with the destination-domain reset"] = sum(1 for iv in ivs if iv[5] == 1)
+    zero = [k for k, v in w.items() if v == 0]
+    if zero:
+        raise MachineryError("vacuous exploration of %s: no %s" % (_describe(spec), ", ".join(zero)))
+    return w
+
+
+def run_jobs(report, jobs, tier, seed, log=print):
+    for job in jobs:
+        if job[0] == "g":
+            _, spec, opts = job
+            spec = json.loads(json.dumps(spec))          # tuples -> lists, as the workers see it
+            g, res = run_gmode(report, spec, fam.tla_cfg(spec), seed, opts, log=log)
+            multi = sum(1 for e in g.succ for (o, d) in e.values() if isinstance(d, list) and len(d) > 1)
+            if not res.violated:
+                _witnesses(spec, g)
+            report.add(edges_with_several_metastable_resolutions=multi,
+                       per_dut=[{"dut": _describe(spec), "impl_states": len(g.states), "impl_edges": g.nedges,
+                                 "edges_with_several_resolutions": multi, "input_vectors": len(g.alphabet),
+                                 "temporal_clauses": list(opts["props"]) if "props" in opts else list(_family(spec)[3])}])
+            if g.succ and g.succ[0]:
+                k = sorted(g.succ[0])[0]
+                report.sample({"dut": _describe(spec), "edge_from_reset": {"inputs": k, "outputs": list(g.succ[0][k][0])}},
+                              cap=40)
+        elif job[0] == "canary":
+            _, spec, clause = job
+            spec = json.loads(json.dumps(spec))
+            run_canary(report, spec, fam.tla_cfg(spec), clause, log=log)
+        elif job[0] == "t":
+            run_tmode(report, tier, seed)
+        else:
+            raise ValueError(job[0])
+
+
+# ============================================================================================ lanes
+def _lane_main(conn, prop, tier, seed, label, jobs, findings):
+    import traceback
+    try:
+        from .. import py312_tracer
+        from ..report import Report
+        py312_tracer.install()
+        rep = Report(prop, "%s-%s" % (tier, label), seed)
+        rep.findings = findings
+        run_jobs(rep, jobs, tier, seed, log=lambda m: print("[%s] %s" % (label, m), flush=True))
+        conn.send({"cov": rep.cov, "violations": rep.violations, "known_hit": rep.known_hit, "notes": rep.notes})
+    except MachineryError as ex:
+        conn.send({"error": "[%s] %s" % (label, ex)})
+    except Exception:
+        conn.send({"error": "[%s] %s" % (label, traceback.format_exc()[-3000:])})
+    finally:
+        conn.close()
+
+
+def run_lanes(report, prop, tier, seed, lanes, par=6):
+    """lanes: list of (label, jobs).  Runs them in child processes, at most `par` at a time, merges in list order
+    (so the evidence is deterministic)."""
+    import multiprocessing as mp
+    import multiprocessing.connection
+    import time
+    ctx = mp.get_context("fork")
+    pending = list(enumerate(lanes))
+    running, results = {}, {}
+    while pending or running:
+        while pending and len(running) < par:
+            i, (label, jobs) = pending.pop(0)
+            pc, cc = ctx.Pipe(duplex=False)
+            p = ctx.Process(target=_lane_main, args=(cc, prop, tier, seed, label, jobs, report.findings))
+            p.start()
+            cc.close()
+            running[i] = (p, pc, label, time.time())
+        done = mp.connection.wait([x[1] for x in running.values()], timeout=5)
+        for i in list(running):
+            p, pc, label, t0 = running[i]
+            if pc in done:
+                print("lane %s finished after %.0fs" % (label, time.time() - t0), flush=True)
+                try:
+                    results[i] = pc.recv()
+                except EOFError:
+                    results[i] = {"error": "[%s] lane died without a result" % label}
+                p.join()
+                del running[i]
+    errors = []
+    for i in range(len(lanes)):
+        r = results[i]
+        if "error" in r:
+            errors.append(r["error"])
+            continue
+        cov = r["cov"]
+        for s_ in cov.pop("samples", []):
+            report.sample(s_, cap=16)
+        report.add(**cov)
+        report.violations.extend(r["violations"])
+        for k in r["known_hit"]:
+            if k not in report.known_hit:
+                report.known_hit.append(k)
+        report.notes.extend(r["notes"])
+    if errors:
+        raise MachineryError(" || ".join(errors))
+
+
+def run(prop, report, tier, seed):
+    report.assume("metastability = per-bit old/new resolution of a synchroniser's first flop when its source changes "
+                  "at a coinciding destination edge; FIFO crossings: free edge interleaving within the drift bound; bus "
+                  "synchroniser: drift bounded by R and time-out longer than the round trip (premise of the property); "
+                  "pulse synchroniser: at least R + 1 quiet input cycles after a pulse (premise)")
+    report.assume("with_common_rst: AsyncResetSynchronizer is the repository simulator's combinational stand-in "
+                  "(reset acts at clock edges only, both domains see assertion and release in the same instant); a reset "
+                  "pulse is held for R + 3 edges of each clock; what the read side shows while the common reset is "
+                  "asserted is not judged")
+    report.assume("AXILiteClockDomainCrossing: one direction per configuration (the other direction's channels tied off), "
+                  "one outstanding transaction, payloads are per-channel sequence tags (k mod 3)")
+    report.assume("T-mode: the ordinary simulator's fixed-period clocks (no metastability), realistic widths")
+    _known(report)
+    lanes = fam.lanes(tier)
+    only = [x for x in os.environ.get("VERIF_C05_LANES", "").split(",") if x]      # development / mutation runs only
+    if only:
+        lanes = [l for l in lanes if l[0] in only]
+        report.note("partial run: lanes %r only" % only)
+    # long lanes first
+    order = ["axil-write", "fifo-buffered", "fifo-r3", "common-rst-data", "cdc-r2", "fifo-r2", "common-rst-live",
+             "common-rst-r3", "common-rst"]
+    lanes.sort(key=lambda x: order.index(x[0]) if x[0] in order else len(order))
+    run_lanes(report, prop, tier, seed, lanes, par=5 if tier == "thorough" else 4)
+    report.add(lanes=[l for l, _ in lanes])
+    report.add(clauses={"stream / bus / pulse": INVS + PROPS, "axi-lite": AXIL_INVS + AXIL_PROPS, "t-mode": T_INVS})
+    if only:
+        return
     if report.cov.get("edges_with_several_metastable_resolutions", 0) == 0:
         raise MachineryError("no edge with more than one metastable resolution was explored (vacuous run)")
-    # canary: with the premise broken (time-out shorter than the round trip) a torn word MUST be found
-    for spec, cfg in fam.canaries(tier):
-        gl = GraphLoop("cdc/CdcGraph", "harness.families.cdc:make", [(spec, cfg)], invariants=["OnlyRealWords"],
-                       hint=fam.Hint(), spec_name="Spec", fmt="hash", spec_budget=3000000, total_budget=4000000)
-        try:
-            res = gl.run()
-        finally:
-            gl.close()
-        if res.violated != "OnlyRealWords":
-            raise MachineryError("canary %s did not tear a word: the check has lost its sensitivity" % _describe(spec))
-        report.add(canaries_detected=1)
-        report.note("canary %s tears a word after %d instants, as it must" % (_describe(spec), len(res.trace) - 1))
+    if report.cov.get("canaries_detected", 0) < 2:
+        raise MachineryError("canaries missing")
     report.cov["exhaustive"] = True
+
+
+# ============================================================================================ T-mode
+T_INVS = ["InOrderExactlyOnceT", "ValidHoldT", "NeverOverflowsT", "OnlyRealWordsT", "EmptyAfterResetT", "NoSpuriousPulseT",
+          "EveryPulseOnceT", "BoundedDelivery", "BoundedAcceptance", "BoundedFresh"]
+
+# (write period, write phase, read period, read phase) of the ordinary simulator's TimeManager: equal periods with
+# coinciding and with offset edges, near-equal, 1.4, 2, 2.6 and 3 in both directions
+CLOCKS = [(10, 0, 10, 0), (10, 0, 10, 3), (10, 0, 12, 0), (12, 1, 10, 0), (10, 0, 14, 2), (14, 0, 10, 0),
+          (10, 0, 20, 0), (20, 4, 10, 0), (10, 0, 26, 0), (26, 0, 10, 0), (10, 0, 30, 0), (30, 6, 10, 1)]
+
+
+def _drift(clk):
+    pw, _, pr, _ = clk
+    return -(-max(pw, pr) // min(pw, pr))            # ceil of the period ratio
+
+
+def tmode_specs(tier):
+    """realistic-width DUTs x clock pairs for trace validation"""
+    duts = [dict(kind="asyncfifo", depth=8, dw=8), dict(kind="asyncfifo", depth=16, dw=16, buffered=True),
+            dict(kind="cdc", depth=8, dw=16), dict(kind="cdc", depth=16, dw=12, buffered=True),
+            dict(kind="cdc", depth=8, dw=8, common_rst=1, rst=3),
+            dict(kind="bus", width=8, timeout=128), dict(kind="bus", width=16, timeout=128),
+            dict(kind="pulse")]
+    L = []
+    for di, d in enumerate(duts):
+        for ci, clk in enumerate(CLOCKS):
+            if tier != "thorough" and (ci + di) % 4:
+                continue
+            sp = dict(d, clk=list(clk), time=20000 if tier == "thorough" else 8000)
+            r = _drift(clk)
+            if d["kind"] in ("bus", "pulse"):
+                sp["r"] = r
+            if d["kind"] == "pulse":
+                sp["quiet"] = r + 1
+            if d.get("common_rst"):
+                sp["rh"] = r + 3
+            L.append(sp)
+    return L
+
+
+def _tmode_cfg(spec):
+    cfg = fam.tla_cfg(spec)
+    if spec["kind"] == "bus":
+        cfg["dmax"] = 2 ** spec["width"] - 1
+        cfg["dset"] = [0]
+    elif spec["kind"] != "pulse":
+        cfg["dmax"] = 2 ** spec["dw"] - 1
+        cfg["dset"] = [0]
+        cfg["r"] = 0                        # FIFO crossings: no premise on the clocks
+    # an owed token is delivered within 8 read edges of a ready consumer, an empty crossing accepts within 8 write
+    # edges (two synchroniser stages + pointer + output register, with margin); a bus word that has been stable for
+    # 40 + 8 R instants (two hand-shake round trips at drift R) is at the output
+    return _tcfg(cfg, stallbound=8, freshbound=40 + 8 * _drift(spec["clk"]))
+
+
+def sim_trace(spec, seedstr):
+    """ordinary two-clock Migen simulation of the real code (litex.gen.sim.core.Simulator.run, generators in both
+    domains, fixed periods/phases, no injection).  One event [iv, o] per instant in which the simulator's TimeManager
+    reports a rising edge; the interface values are read just before the simulator executes that instant's edges."""
+    import random
+    from litex.gen.sim.core import Simulator
+    top, ins, outs, opts = fam.make(spec)
+    kind = spec["kind"]
+    pw, phw, pr, phr = spec["clk"]
+    clocks = {"write": (pw, phw), "read": (pr, phr)}
+    for k, v in opts.get("domain_alias", {}).items():
+        clocks[k] = clocks[v]               # the private domains of with_common_rst run on the user clocks
+    nw, nr = spec["time"] // pw, spec["time"] // pr
+    rndw, rndr = random.Random(seedstr + "/w"), random.Random(seedstr + "/r")
+    pv, prdy = rndw.choice([0.9, 0.5, 0.25, 1.0]), rndr.choice([0.9, 0.5, 0.25, 1.0])
+    ev = []
+    gens = {"write": [], "read": []}
+    if kind in ("asyncfifo", "cdc"):
+        valid, data, ready = ins[0], ins[1], ins[2]
+        sink_ready = outs[0]
+        dw = spec["dw"]
+
+        def producer():
+            cur = None
+            for _ in range(nw):
+                v = (yield valid)
+                if cur is not None and v == 1 and (yield sink_ready) == 1:
+                    cur = None
+                if cur is None and rndw.random() < pv:
+                    cur = rndw.getrandbits(dw)
+                yield valid.eq(0 if cur is None else 1)
+                yield data.eq(0 if cur is None else cur)
+                yield
+
+        def consumer():
+            for _ in range(nr):
+                yield ready.eq(1 if rndr.random() < prdy else 0)
+                yield
+        gens["write"].append(producer())
+        gens["read"].append(consumer())
+        if spec.get("common_rst"):
+            rstw, rstr = ins[3], ins[4]
+            rh = spec["rh"]
+            sh = {"owner": None, "cw": 0, "cr": 0}
+
+            def resetter(me, mine, other, n, rnd, key):
+                for _ in range(n):
+                    a, b = (yield mine), (yield other)
+                    if a == 1 or b == 1:
+                        sh[key] += 1        # an edge of this clock under the pulse
+                    if sh["owner"] == me:
+                        if a == 1 and sh["cw"] >= rh and sh["cr"] >= rh and rnd.random() < 0.5:
+                            yield mine.eq(0)
+                            sh["owner"] = "releasing"
+                    elif sh["owner"] == "releasing":
+                        if a == 0 and b == 0:
+                            sh["owner"], sh["cw"], sh["cr"] = None, 0, 0
+                    elif sh["owner"] is None and rnd.random() < 0.01:
+                        sh["owner"] = me
+                        yield mine.eq(1)
+                    yield
+            gens["write"].append(resetter("w", rstw, rstr, nw, random.Random(seedstr + "/rw"), "cw"))
+            gens["read"].append(resetter("r", rstr, rstw, nr, random.Random(seedstr + "/rr"), "cr"))
+    elif kind == "bus":
+        i = ins[0]
+        width = spec["width"]
+
+        def driver():
+            left = 0
+            for _ in range(nw):
+                if left == 0:
+                    yield i.eq(rndw.getrandbits(width))
+                    left = rndw.choice([1, 1, 2, 3, 5, 40, 150])
+                left -= 1
+                yield
+        gens["write"].append(driver())
+        gens["read"].append((None for _ in range(nr)))
+    elif kind == "pulse":
+        i = ins[0]
+        quiet = spec["quiet"]
+
+        def pulser():
+            owed = 0
+            for _ in range(nw):
+                if (yield i) == 1:
+                    owed = quiet
+                elif owed > 0:
+                    owed -= 1
+                yield i.eq(1 if (owed == 0 and rndw.random() < pv) else 0)
+                yield
+        gens["write"].append(pulser())
+        gens["read"].append((None for _ in range(nr)))
+    else:
+        raise ValueError(kind)
+    fin = []
+
+    def until_done(g):          # the recording stops when the first driver has run out of stimulus
+        yield from g
+        fin.append(1)
+    gens = {cd: [until_done(g) for g in L] for cd, L in gens.items()}
+    sim = Simulator(top, gens, clocks=clocks)
+    tick = sim.time.tick
+    peek = sim.evaluator.eval
+
+    def logging_tick():
+        dt, rising, falling = tick()
+        tk = (1 if "write" in rising else 0) + (2 if "read" in rising else 0)
+        if tk and not fin:
+            ev.append([[tk] + [int(peek(x)) for x in ins], [int(peek(x)) for x in outs]])
+        return dt, rising, falling
+    sim.time.tick = logging_tick
+    try:
+        sim.run()
+    finally:
+        sim.close()
+    return ev
+
+
+def _sim_job(job):
+    from .. import py312_tracer
+    py312_tracer.install()
+    return sim_trace(*job)
+
+
+def _tseed(seed, i, k):
+    return "c05-%d-%d-%d" % (seed, i, k)
+
+
+def run_tmode(report, tier, seed, nproc=6):
+    import multiprocessing as mp
+    specs = tmode_specs(tier)
+    ntr = 2 if tier == "thorough" else 1
+    jobs = [(spec, _tseed(seed, i, k)) for i, spec in enumerate(specs) for k in range(ntr)]
+    pool = mp.get_context("fork").Pool(nproc)
+    try:
+        evs = pool.map(_sim_job, jobs, chunksize=1)        # order of `jobs` is kept: deterministic
+    finally:
+        pool.terminate()
+    traces = [{"cfg": _tmode_cfg(spec), "ev": ev} for (spec, _), ev in zip(jobs, evs)]
+    fails, st = tracecheck.validate("cdc/CdcTrace", traces, T_INVS, workers=4, max_failures=8)
+    report.add(traces_validated_against_impl=len(traces), trace_states=st["states"],
+               tmode_instants=sum(len(t["ev"]) for t in traces),
+               tmode_simultaneous_edges=sum(1 for t in traces for e in t["ev"] if e[0][0] == 3),
+               tmode_tokens=sum(1 for t in traces if t["cfg"]["kind"] == "fifo" for e in t["ev"]
+                                if e[0][0] in (2, 3) and e[0][3] == 1 and e[1][1] == 1),
+               tmode_reset_pulses=sum(1 for t in traces if t["cfg"]["rst"] for a, b in zip(t["ev"], t["ev"][1:])
+                                      if not (a[0][4] or a[0][5]) and (b[0][4] or b[0][5])),
+               tmode_duts=sorted({_describe(s) for s, _ in jobs}), tmode_clock_pairs=[list(c) for c in CLOCKS])
+    for k in ("tmode_simultaneous_edges", "tmode_tokens", "tmode_reset_pulses"):
+        if report.cov.get(k, 0) == 0:
+            raise MachineryError("T-mode witness %s is zero (vacuous run)" % k)
+    report.sample({"tmode_trace_head": {"dut": _describe(jobs[0][0]), "clocks": jobs[0][0]["clk"],
+                                        "first_instants": traces[0]["ev"][:6]}}, cap=12)
+    for f in sorted(fails, key=lambda f: f["tid"]):
+        spec, ss = jobs[f["tid"]]
+        tr = traces[f["tid"]]
+        report.violation({"dut": spec, "clause": f["clause"]},
+                         {"mode": "T", "spec": spec, "cfg": tr["cfg"], "simseed": ss, "trace_module": "cdc/CdcTrace",
+                          "trace_invariants": T_INVS, "observed": tr["ev"][max(0, f["l"] - 40):f["l"]],
+                          "clause": f["clause"], "instant": f["l"]},
+                         "%s violated by %s (clocks %r) in a recorded two-clock simulation at instant %s" % (
+                             f["clause"], _describe(spec), spec["clk"], f["l"]))
+
+
+def replay_tmode(r):
+    ev = sim_trace(r["spec"], r["simseed"])
+    try:
+        fails, _ = tracecheck.validate(r["trace_module"], [{"cfg": r["cfg"], "ev": ev}], r["trace_invariants"], workers=2)
+    except MachineryError as ex:
+        return False, [{"clause": "trace not judged: %s" % ex}]
+    return any(f["clause"] == r["clause"] for f in fails), fails
+
+
+# ============================================================================================ replay
+def replay(path):
+    with open(path) as f:
+        r = json.load(f)
+    if r.get("mode") == "T":
+        return replay_tmode(r)
+    if r.get("mode") == "G" and r.get("schedule") is not None:
+        rep = _replay_linear(r["spec"], r["schedule"], picks=r["picks"])
+        if rep is None:
+            return False, [{"clause": "recorded metastable resolution is not offered by this netlist"}]
+        b = r.get("bound")
+        tcfg = _tcfg(r["cfg"]) if b is None else _tcfg(r["cfg"], stallbound=b, freshbound=b)
+        allf = []
+        for t in r["trace_clauses"]:
+            try:
+                fails, _ = tracecheck.validate(r["trace_module"], [{"cfg": tcfg, "ev": rep[0]}], [t], workers=2, heap="2g")
+            except MachineryError as ex:
+                return False, [{"clause": "schedule no longer legal for the environment: %s" % ex}]
+            allf += fails
+        return any(f["clause"] in r["trace_clauses"] for f in allf), allf
+    return False, [{"clause": "replay file without a schedule"}]
